@@ -12,6 +12,9 @@ path and the same options.  Only projected findings are compared (rows sorted, p
   get_health_score  health score, grade, the seven category scores, the counters       <-> analyze (all analyses), summary section
   analyze_code      all of the above rows + health score, per selected analyses        <-> analyze --select ...
 
+Histories (sequences of calls on ONE server process across projects with different configurations; the answer to a call must not depend on
+the calls made before it) are in harness/c20hist.py, started from run() below and sharing its cache of command line runs.
+
 The "summary" and "detailed" output modes of the tools (issue lists cut by a threshold) are compared with the CLI rows cut by the same
 threshold, and with the lines `pyscn check` prints for the same threshold.
 """
@@ -587,7 +590,7 @@ class Runner:
                 self.cfg_files[text] = p
             return self.cfg_files[text]
 
-    def cli(self, sc, flags, cfg, target):
+    def cli(self, sc, flags, cfg, target, pool=None):
         """Future of (rc, report, stderr, cmd); identical command lines are run once."""
         fl = list(flags)
         if cfg is not None:
@@ -597,7 +600,7 @@ class Runner:
         key = (tuple(fl), target)
         with self.lock:
             if key not in self.cli_cache:
-                self.cli_cache[key] = self.pool.submit(cli_analyze, self.root, fl, target)
+                self.cli_cache[key] = (pool or self.pool).submit(cli_analyze, self.root, fl, target)
                 self.stats["mcp_cli_runs"] += 1
             return self.cli_cache[key]
 
@@ -934,6 +937,9 @@ def run(ck, root, thorough):
     robust += [(t, [P1, 2]) for t in TOOLS]         # arguments that are not an object: every tool must answer an error
     e_fut = R.pool.submit(serve, N, [(t, dict(a, output_mode="full") if "path" in a and isinstance(a.get("path"), str) else a) for t, a, c, l in ecases] + robust, None)
     e_cli = [R.pool.submit(cli_analyze, base, argv, None) for t, a, argv, l in ecases]
+    # histories: sequences of calls on ONE server process across projects with different configurations (harness/c20hist.py)
+    import c20hist
+    hist = c20hist.Section(ck, base, R, stats, violation, thorough)
 
     # ---- 2. decide
     def decide(sc, tool, args, target, mode, call_args, answer, main):
@@ -1024,6 +1030,7 @@ def run(ck, root, thorough):
                       replay_of(plain, tool, args, None, {"answer": answer}))
         elif not isinstance(args, dict) and not (answer.get("is_error") or "rpc_error" in answer):
             violation("MCP %s accepts arguments that are not a JSON object: %s" % (tool, str(answer)[:300]), replay_of(plain, tool, args, None, {"answer": answer}))
+    hist.decide()
     R.pool.shutdown()
     stats["mcp_seconds"] = round(time.time() - t0, 1)
     return stats
